@@ -2,6 +2,7 @@
 import itertools
 
 import ir
+from ir import short
 import symex
 from infra import Report, Sink, loc
 from terms import cf, leaves, lit, show, simp, subterms
@@ -142,7 +143,35 @@ def apply(F, S):
             S.bad("B6", "derive", tr, "DataItem does not derive %s" % tr)
 
 
+def b7_fresh_builder(F, S):
+    """a fresh builder has nothing set: `DataItemBuilder::new()` (and `DataItem::builder()`, `Default`) is the all-None aggregate.
+    Without this a pre-filled field would make `build()` succeed on a builder whose setter was never called."""
+    none = ("adt", "std::option::Option", (0, "None"), (), True)
+    entry = [("DataItemBuilder::new", F.method("DataItemBuilder", "new", trait="")), ("DataItem::builder", F.method("DataItem", "builder", trait=""))]
+    d = F.method("DataItemBuilder", "default", trait="Default")
+    if d is not None and not d.derived:
+        entry.append(("DataItemBuilder::default", d))
+    for lab, fn in entry:
+        if fn is None:
+            S.bad("B7", "anchor", lab, "%s not found" % lab)
+            continue
+        r = symex.evaluate(F, fn, symex.Policy(F, modular=False))
+        ret = r["ret"]
+        ok = isinstance(ret, tuple) and ret[0] == "adt" and short(str(ret[1])) == "DataItemBuilder" and len(ret[3]) == len(FIELDS) \
+            and all(v == none for _, v in ret[3])
+        if ok:
+            S.ok("B7", "%s() has no field set" % lab)
+        else:
+            S.bad("B7", "fresh-builder", lab, "%s() returns %s: a fresh builder must have every field unset" % (lab, show(ret)[:160]), loc(fn.span))
+    # any other way to obtain a builder (a derived Default is all-None by construction)
+    others = [f for f in F.fns if f.kind in ("Fn", "AssocFn") and not f.derived and f.d.get("output", {}).get("s", "").endswith("DataItemBuilder")
+              and f.label not in ("DataItemBuilder::new", "DataItem::builder") and f.name not in FIELDS and f.name != "default"]
+    for f in others:
+        S.bad("B7", "extra-builder-source", f.label, "%s also produces a DataItemBuilder: only new()/builder()/the setters are documented" % f.label, loc(f.span))
+
+
 RULES = [
+    ("B7", "a fresh builder (DataItemBuilder::new, DataItem::builder) has every field unset", 2),
     ("B1", "each setter writes Some(arg) to its own field only, reads nothing, returns self (order irrelevant, last call wins)", 5),
     ("B2", "any unset field yields Err(DataItemIncomplete) before any value comparison (31 of 32 presence patterns)", 31),
     ("B3", "with all fields set: exactly the six non-strict comparisons, Ok iff all hold, Err(DataItemInvalid) otherwise (64 outcomes)", 64),
@@ -159,6 +188,7 @@ def run(tier, repo=None, tag="repo"):
     F = ir.load("default", repo, tag)
     try:
         apply(F, Sink(rep))
+        b7_fresh_builder(F, Sink(rep))
     except symex.Unsupported as e:
         rep.violation("C16:unrecognised", "B2", "UNRECOGNISED idiom: %s" % e)
     rep.configs = ["default"]
